@@ -182,7 +182,7 @@ func parseNodeNameArray(b []byte) (names []string, err error) {
 		index := 18 * i
 		flags := binary.BigEndian.Uint16(b[index+16 : index+18]) // nameFlags
 		if (flags & 0x8000) == 0x00 {                            // don't add to the table if this is group name
-			nn := bytes.TrimRight(b[0:16], "\x00")
+			nn := bytes.TrimRight(b[index:index+16], "\x00")
 			nn = bytes.TrimRight(nn, " ")
 			name := string(nn)
 			names = append(names, string(name))
